@@ -189,6 +189,55 @@ def gen(name, lemmas=False, append=False):
     return "\n".join(out) + "\n"
 
 
+def gen_kani(name):
+    """Kani harness module (Rust text) checking the real compiled parsers of `name` against the layout table:
+    loop-free over all byte contents and every input length 0..=size+1  => complete proofs of the leaf contracts."""
+    L = json.load(open(os.path.join(V, "contracts", "layouts", name + ".json")))
+    ver = L.get("version", 0)
+    out = ["// GENERATED by tools/layouts.py from contracts/layouts/%s.json -- do not edit" % name,
+           "use super::*;", "use nom_derive::Parse;", ""]
+    for part in L["parts"]:
+        P = L[part]
+        st = P["struct"]
+        shift = P.get("skip", 0)
+        size = P["size"] - shift
+        checks = []
+        for fname, off, w, ty in P["fields"]:
+            o = off - shift
+            if ty == "const":
+                checks.append("assert!(v.%s == %d);" % (fname, ver))
+            elif ty == "u8":
+                checks.append("assert!(v.%s == i[%d]);" % (fname, o))
+            elif ty == "u16":
+                checks.append("assert!(v.%s == u16::from_be_bytes([i[%d], i[%d]]));" % (fname, o, o + 1))
+            elif ty == "u32":
+                checks.append("assert!(v.%s == u32::from_be_bytes([i[%d], i[%d], i[%d], i[%d]]));" % (fname, o, o + 1, o + 2, o + 3))
+            elif ty == "ipv4":
+                checks.append("assert!(v.%s.octets() == [i[%d], i[%d], i[%d], i[%d]]);" % (fname, o, o + 1, o + 2, o + 3))
+            elif ty.startswith("derived:"):
+                checks.append("assert!(v.%s == ProtocolTypes::from(i[%d]));" % (fname, o))
+        out.append("""/// K.%(name)s.%(part)s -- %(st)s::parse against the layout table, all byte contents, all lengths 0..=%(n)d
+#[kani::proof]
+#[kani::unwind(6)]
+fn k_%(name)s_%(part)s() {
+    let buf: [u8; %(n)d] = kani::any();
+    let n: usize = kani::any();
+    kani::assume(n <= %(n)d);
+    let i = &buf[..n];
+    match %(st)s::parse(i) {
+        Ok((rest, v)) => {
+            kani::cover!(true, "ok");
+            assert!(n >= %(size)d, "a truncated %(part)s was accepted");
+            assert!(rest.len() == n - %(size)d && rest.as_ptr() == i[%(size)d..].as_ptr(), "%(part)s is not %(size)d bytes");
+            %(checks)s
+        }
+        Err(_) => { kani::cover!(true, "err"); assert!(n < %(size)d, "a complete %(part)s was rejected"); }
+    }
+}
+""" % dict(name=name, part=part, st=st, n=size + 1, size=size, checks="\n            ".join(checks)))
+    return "\n".join(out)
+
+
 if __name__ == "__main__":
     import sys
     print(gen(sys.argv[1], len(sys.argv) > 2))
